@@ -924,6 +924,23 @@ def _oracle_modes(self, rc, op, pre, post, real_out):
         gone = [d for d in pre.duplicates if d.partition('.')[0] not in req and d not in post.duplicates]
         if gone:
             self._fail('C11', 'delete-duplicate-extra', f'delete_objects removed the duplicate {gone[0][:18]}… of a key that was not requested')
+    if kind in ('delete', 'repack', 'repackOne'):
+        # every other object is still there, readable with only the index, a slice and zlib
+        gone_req = {rc.key(k) if isinstance(k, int) else k for k in op.get('ks', [])} if kind == 'delete' else set()
+        for k in sorted(self.pre_expected):
+            dk = rc.key(k)
+            if dk in gone_req or (rc.name, k) in self.pre_damaged:
+                continue
+            try:
+                data = post.recover(dk)
+            except Exception as exc:  # pylint: disable=broad-except
+                data = f'{type(exc).__name__}: {str(exc)[:60]}'
+            if data is None:
+                data = post.loose_bytes.get(dk)
+            if data != self.pool.contents[k]:
+                what = 'is gone' if data is None else (f'cannot be recovered ({data})' if isinstance(data, str) else f'reads as {len(data)} other bytes')
+                self._fail('C11', f'{kind}-lost', f'after {kind}, object cid {k} ({self.pool.size(k)} bytes), which was not deleted, {what}')
+                break
     if kind == 'clean':
         if post.duplicates:
             self._fail('C11', 'clean-duplicate-left', f'clean_storage left {len(post.duplicates)} stray duplicate files of existing objects')
